@@ -56,6 +56,8 @@ def mkframe(fd, name="F", arbid=0x123, extended=False):
     fr = cm.Frame(name, arbitration_id=cm.ArbitrationId(arbid, extended), size=fd["size"])
     if fd["size"] > 8:
         fr.is_fd = True          # a CAN FD frame; its declared length need not be one of the DLC steps
+    if fd.get("j"):
+        fr.is_j1939 = True       # a frame of a J1939 network (no business of the raw codec)
     for d in fd["sigs"]:
         fr.add_signal(mksignal(d))
     if fd.get("sc"):
@@ -83,6 +85,7 @@ def mkframe(fd, name="F", arbid=0x123, extended=False):
             pdu.add_signal(mot(nm + "_a", 8, 7))
             pdu.add_signal(mot(nm + "_b", 8, 7 + 8))
             fr.add_pdu(pdu)
+        fr._verif_ctfull = True
     elif fd.get("ct", False):
         fr.add_pdu(cm.Pdu(name="P", size=1, id=1))
     return fr
@@ -135,6 +138,28 @@ def _decode_call(fr, data, api, at, ae, db):
     if api == "mdecode":
         return db.decode(fr.arbitration_id, bytes(data))
     return fr.decode(bytes(data))
+
+
+def container_reference(data, size):
+    """the content of a payload of the container built by mkframe (ctfull): headers of 24 bit id + 8 bit length (in bytes), PDUs 10
+    and 11 with two one-byte signals; unknown ids are skipped by their length.  Independent of canmatrix."""
+    out = {"pdus": [], "Header_ID": [], "Header_DLC": []}
+    off = 0
+    while off * 8 + 32 < size * 8:
+        hid = int.from_bytes(bytes(data[off:off + 3]), "big")
+        dlc = data[off + 3]
+        off += 4
+        out["Header_ID"].append(["raw", repr(hid)])
+        out["Header_DLC"].append(["raw", repr(dlc)])
+        if hid in (10, 11):
+            nm = "pdu1" if hid == 10 else "pdu2"
+            if dlc < 2 or off + 2 > size:
+                return None                      # not a payload this reference speaks about
+            out["pdus"].append({nm: {nm + "_a": ["raw", repr(data[off])], nm + "_b": ["raw", repr(data[off + 1])]}})
+        else:
+            out["pdus"].append("None")
+        off += dlc
+    return out
 
 
 def _plain(x):
@@ -202,6 +227,17 @@ def observe_decode(fr, data, api="decode", at=False, ae=False, db=None, _again=T
                 b = "raised " + errname(e)
             if a != b:
                 return {"err": "exc:container-with-opt-in-not-read-as-the-padded-or-cut-payload"}
+        if fr.is_pdu_container and getattr(fr, "_verif_ctfull", False) and first == {"ok": "unmodelled"}:
+            # the content of a container payload against the layout (reference above)
+            eff = (list(data) + [0xFF] * max(0, fr.size - len(data)))[:fr.size]
+            want = container_reference(eff, fr.size)
+            if want is not None:
+                try:
+                    got = _plain(_decode_call(fr, data, api, at, ae, db))
+                except Exception as e:  # noqa
+                    got = "raised " + errname(e)
+                if got != want:
+                    return {"err": "exc:container-content-differs-from-its-layout"}
         return first
     try:
         d = _decode_call(fr, data, api, at, ae, db)
